@@ -531,15 +531,15 @@ pub fn exhaustive(maxlen: usize, out: &mut Vec<Hist>) {
 
 const BOUNDARY_TTL: [u32; 9] = [65535, 65536, 65537, 0x1_0003, 0xffff_ffff, 0x8000_0001, 0xffff_0000, 0x7fff_ffff, 65534];
 
-struct Profile {
-    nconn: usize,
-    nids: usize,
-    maxlen: usize,
-    ttl_max: u32,
-    boundary_ttl_pct: u32,
-    big_advance: bool,
-    messages_after_each: bool,
-    malformed_pct: u32,
+pub struct Profile {
+    pub nconn: usize,
+    pub nids: usize,
+    pub maxlen: usize,
+    pub ttl_max: u32,
+    pub boundary_ttl_pct: u32,
+    pub big_advance: bool,
+    pub messages_after_each: bool,
+    pub malformed_pct: u32,
 }
 
 fn advance(r: &mut impl RngCore, p: &Profile) -> u64 {
@@ -563,7 +563,7 @@ fn advance(r: &mut impl RngCore, p: &Profile) -> u64 {
     }
 }
 
-fn random_history(r: &mut impl RngCore, rm: &mut impl RngCore, p: &Profile, gen: &str, prefix: Vec<Op>, t0: u64) -> Hist {
+pub fn random_history(r: &mut impl RngCore, rm: &mut impl RngCore, p: &Profile, gen: &str, prefix: Vec<Op>, t0: u64) -> Hist {
     let ids = ids5();
     let mut ops = prefix;
     let mut t = t0;
@@ -647,7 +647,7 @@ fn random_history(r: &mut impl RngCore, rm: &mut impl RngCore, p: &Profile, gen:
 }
 
 /// C16: scenario prefixes for the orderings the property names; boundary offsets in {-1ns, 0, +1ns}.
-fn c16_template(r: &mut impl RngCore, which: u32) -> (Vec<Op>, u64, &'static str) {
+pub fn c16_template(r: &mut impl RngCore, which: u32) -> (Vec<Op>, u64, &'static str) {
     let ids = ids5();
     let d = |r: &mut dyn RngCore| -> i64 { [-1i64, 0, 1][(r.next_u32() % 3) as usize] };
     let at = |base: u64, off: i64| -> u64 { (base as i64 + off).max(0) as u64 };
@@ -760,7 +760,7 @@ fn burst_id(k: usize) -> [u8; 32] {
     id[31] = 0xB0;
     id
 }
-fn burst_history(which: usize, n: usize) -> Hist {
+pub fn burst_history(which: usize, n: usize) -> Hist {
     let mut ops = Vec::new();
     let name;
     match which % 3 {
